@@ -437,6 +437,23 @@ theorem msAmbi_sum (l : MsLayout) (hl : MsLayoutOk l) (fs fsz nch br : Int) (ha 
       Int.mul_le_mul_of_nonneg_right (by omega) (by omega)
     omega
 
+theorem msAmbi_floor_inactive (l : MsLayout) (hl : MsLayoutOk l) (fs fsz nch br : Int) (ha : l.ambisonics = true)
+    (hfs1 : 8000 ≤ fs) (hfs2 : fs ≤ 48000) (hq1 : 0 ≤ 60 * fs / fsz) (hq2 : 60 * fs / fsz ≤ 24000)
+    (hn1 : l.nbStreams + l.nbCoupled ≤ nch) (hn2 : nch ≤ 255) (hbr : MsBrOk nch br) (i : Int) :
+    msRate l fs fsz br i = msRateRaw l fs fsz br i := by
+  obtain ⟨t1, -, -⟩ := ambi_total_range l hl fs fsz nch br hfs1 hfs2 hq1 hq2 hn1 hn2 hbr
+  have hn := hl.n1
+  obtain ⟨q0, q1, q2⟩ := (tdiv_spec (msAmbiTotal l fs fsz br) l.nbStreams (by omega)).1 (by omega)
+  have hq500 : 500 ≤ Int.tdiv (msAmbiTotal l fs fsz br) l.nbStreams := by
+    by_contra hlt
+    have : (Int.tdiv (msAmbiTotal l fs fsz br) l.nbStreams + 1) * l.nbStreams ≤ 500 * l.nbStreams :=
+      Int.mul_le_mul_of_nonneg_right (by omega) (by omega)
+    omega
+  unfold msRate msRateRaw
+  rw [ha]
+  simp only [if_true]
+  omega
+
 /-! ### OPUS_AUTO in CBR: the allocated sum is always worth `smallest_packet` bytes -/
 
 theorem surIn_of (l : MsLayout) (hl : MsLayoutOk l) (fs fsz nch br : Int)
@@ -493,6 +510,61 @@ theorem ms_auto_enough (l : MsLayout) (hl : MsLayoutOk l) (fs fsz : Int)
   have : msSmallest l.nbStreams fs fsz * (3 * 8 * fs / fsz) ≤ msSmallest l.nbStreams fs fsz * 9600 :=
     Int.mul_le_mul_of_nonneg_left d2 hS0
   omega
+
+/-! ### the floor of :794 is dead code -/
+
+theorem lfe_core (nn m q co lo B cr total : Int) (hnn : 1 ≤ nn) (hm : 50 ≤ m) (hq : 25 ≤ q) (hco : co = 40 * m)
+    (hlo : lo = q + 15 * m) (hB : 500 ≤ B) (htot : total = 256 * nn + 32)
+    (hcr : 256 * (B - co * nn - lo) ≤ cr * total) : 4000 - 8 * lo ≤ cr := by
+  by_contra hlt
+  have h1 : cr ≤ 3999 - 8 * lo := by omega
+  have h2 : cr * total ≤ (3999 - 8 * lo) * total := Int.mul_le_mul_of_nonneg_right h1 (by omega)
+  subst hco hlo htot
+  nlinarith [Int.mul_nonneg (show (0:Int) ≤ nn - 1 by omega) (show (0:Int) ≤ m - 50 by omega),
+             Int.mul_nonneg (show (0:Int) ≤ nn - 1 by omega) (show (0:Int) ≤ q - 25 by omega)]
+
+/-- **`rate[i] = IMAX(rate[i], 500)` (:794) never changes anything**: for every setting the API admits, every stream's
+    rate is already ≥ 500 b/s when `surround_rate_allocation` returns (the LFE stream, the only candidate, keeps at
+    least `lfe_offset − (channel_offset + …)/8 ≥ 500`). -/
+theorem msSur_floor_inactive (l : MsLayout) (fs fsz nch br : Int) (h : SurIn l fs fsz nch br) (ha : l.ambisonics = false)
+    (i : Int) (hi : 0 ≤ i) : msRate l fs fsz br i = msRateRaw l fs fsz br i := by
+  have F := sur_facts l fs fsz nch br h
+  obtain ⟨e1, -, e3, -⟩ := sur_eqs l fs fsz br
+  have hR := msRate_class l fs fsz br i ha
+  unfold msRate at hR ⊢
+  unfold msRateRaw msSurRate at hR ⊢
+  rw [ha] at hR ⊢
+  simp only [Bool.false_eq_true, if_false] at hR ⊢
+  generalize msSurVals l fs fsz br = v at *
+  obtain ⟨L01, Leq, u0, ueq, nneq, nn1, nn2, toteq, co1, co2, b1, b2, lo1, lo2, so1, so2, soHi, soLo, numeq, crHi, crLo⟩ := F
+  have hc0 := h.lay.c0
+  by_cases hic : i < l.nbCoupled
+  · rw [if_pos hic]; omega
+  · rw [if_neg hic]
+    by_cases hil : i ≠ l.lfeStream
+    · rw [if_pos hil]; omega
+    · rw [if_neg hil]
+      have hL1 : v.nbLfe = 1 := by
+        rw [Leq]; unfold msNbLfe; rw [if_pos (by omega)]
+      rcases Int.lt_or_le v.num 0 with hnum | hnum
+      · obtain ⟨c0, c1, -⟩ := crLo hnum
+        have hX : v.bitrate - v.channelOffset * v.nbNormal - v.lfeOffset * v.nbLfe < 0 := by
+          by_contra hge
+          have hso := soHi (by omega)
+          have a1 : v.streamOffset * (l.nbCoupled + v.nbUncoupled) ≤ v.streamOffset * v.nbNormal :=
+            Int.mul_le_mul_of_nonneg_left (by omega) so1
+          have a2 : 0 ≤ v.streamOffset * v.nbNormal := Int.mul_nonneg so1 (by omega)
+          rw [numeq] at hnum; nlinarith
+        have hso := soLo hX
+        have hq := (tdiv_spec v.bitrate 20 (by omega)).1 (by omega)
+        have hnum' : v.num = v.bitrate - v.channelOffset * v.nbNormal - v.lfeOffset := by
+          rw [numeq, hso, hL1]; omega
+        rw [hnum'] at c1
+        have := lfe_core v.nbNormal (max 50 (fs / fsz)) (min (Int.tdiv v.bitrate 20) 3000) v.channelOffset v.lfeOffset v.bitrate
+          v.channelRate v.total nn1 (by omega) (by omega) e1 e3 b1 (by omega) c1
+        omega
+      · obtain ⟨c0, -, -⟩ := crHi hnum
+        omega
 
 /-! ### no 32-bit overflow -/
 
